@@ -20,10 +20,17 @@ def leafObs (bo : ByteOrder) (pfx : String) (l : NLeaf) (bytes : List Nat) : Str
   if l.kind = "array" then s!"{pfx}{pathStr l.path}=[{SExp.hex bytes}]"
   else s!"{pfx}{pathStr l.path}={hexNum (get bo bytes)}"
 
+/-- observation line announcing entry `i` of the group whose prefix is `gp` -/
+def entryHdr (gp : String) (i sz : Nat) : String := gp ++ "[" ++ toString i ++ "]:sz=" ++ toString sz
+/-- prefix of the members of entry `i` -/
+def entryPfx (gp : String) (i : Nat) : String := gp ++ "[" ++ toString i ++ "]."
+def groupHdr (gp : String) (n sz : Nat) : String := gp ++ ":n=" ++ toString n ++ ",sz=" ++ toString sz
+def dataLine (pfx name : String) (payload : List Nat) : String := pfx ++ name ++ "=<" ++ SExp.hex payload ++ ">"
+
 /-! ### specification side: from the value tree -/
 
 def dataObs (pfx : String) : List NData → List (List Nat) → List String
-  | d :: ds, p :: ps => s!"{pfx}{d.name}=<{SExp.hex p}>" :: dataObs pfx ds ps
+  | d :: ds, p :: ps => dataLine pfx d.name p :: dataObs pfx ds ps
   | _, _ => []
 
 mutual
@@ -35,13 +42,13 @@ mutual
     | g :: gs, v :: vs => specG bo pfx g v ++ specGs bo pfx gs vs
     | _, _ => []
   def specG (bo : ByteOrder) (pfx : String) : NGroup → GVal → List String
-    | .mk name dim l, .mk hdr es =>
-      let total := hdr.length + (flattenEs bo l.erase es).length
-      s!"{pfx}{name}:n={es.length},sz={total}" :: specEs bo s!"{pfx}{name}" 0 l es
+    | .mk name _ l, .mk hdr es =>
+      groupHdr (pfx ++ name) es.length (hdr.length + (flattenEs bo l.erase es).length)
+        :: specEs bo (pfx ++ name) 0 l es
   def specEs (bo : ByteOrder) (pfx : String) (i : Nat) : NLevel → List LVal → List String
     | _, [] => []
     | l, e :: es =>
-      s!"{pfx}[{i}]:sz={(flattenL bo l.erase e).length}" :: specL bo s!"{pfx}[{i}]." l e
+      entryHdr pfx i (flattenL bo l.erase e).length :: specL bo (entryPfx pfx i) l e
         ++ specEs bo pfx (i + 1) l es
 end
 
@@ -51,11 +58,11 @@ def modelDs (bo : ByteOrder) (buf : List Nat) (pfx : String) : List NData → Na
   | [], _ => []
   | d :: ds, p =>
     let n := rd bo buf p d.lenSize
-    s!"{pfx}{d.name}=<{SExp.hex (slice buf (p + d.lenSize) n)}>" :: modelDs bo buf pfx ds (p + d.lenSize + n)
+    dataLine pfx d.name (slice buf (p + d.lenSize) n) :: modelDs bo buf pfx ds (p + d.lenSize + n)
 
 mutual
   def modelL (bo : ByteOrder) (buf : List Nat) (pfx : String) : NLevel → Nat → Nat → List String
-    | .mk bl lv gs ds, pos, wbl =>
+    | .mk _ lv gs ds, pos, wbl =>
       lv.map (fun l => leafObs bo pfx l (slice buf (pos + l.off) l.size))
         ++ modelGs bo buf pfx gs (pos + wbl)
         ++ modelDs bo buf pfx ds (endGs bo buf (eraseGs gs) (pos + wbl))
@@ -67,10 +74,13 @@ mutual
       let bl := rd bo buf (p + dim.dim.blOff) dim.dim.blSize
       let n := rd bo buf (p + dim.dim.numOff) dim.dim.numSize
       let e := endG bo buf (Group.mk dim.dim l.erase) p
-      s!"{pfx}{name}:n={n},sz={e - p}" ::
+      groupHdr (pfx ++ name) n (e - p) ::
         (List.range n).flatMap (fun i =>
-          let q := iter (fun q => endL bo buf l.erase q bl) i (p + dim.dim.size)
-          s!"{pfx}{name}[{i}]:sz={endL bo buf l.erase q bl - q}" :: modelL bo buf s!"{pfx}{name}[{i}]." l q bl)
+          entryHdr (pfx ++ name) i
+              (endL bo buf l.erase (iter (fun q => endL bo buf l.erase q bl) i (p + dim.dim.size)) bl
+                - iter (fun q => endL bo buf l.erase q bl) i (p + dim.dim.size))
+            :: modelL bo buf (entryPfx (pfx ++ name) i) l
+                (iter (fun q => endL bo buf l.erase q bl) i (p + dim.dim.size)) bl)
 end
 
 /-! ### value trees from S-expressions -/
